@@ -1462,7 +1462,8 @@ impl RestoreManager {
             return Ok(());
         };
 
-        let mut expected: BTreeSet<&str> = manifest.wal_segments.iter().map(String::as_str).collect();
+        let mut expected: BTreeSet<&str> =
+            manifest.wal_segments.iter().map(String::as_str).collect();
         if let Some(snapshot) = manifest.latest_snapshot.as_deref() {
             expected.insert(snapshot);
         }
